@@ -356,6 +356,7 @@ RESET_TIMER:
 		// next data packet arrives.
 		select {
 		case <-s.chReadEvent:
+			verifYield("read.wake")
 		case <-deadlineChanged:
 			if timeout != nil && !timeout.Stop() {
 				select {
@@ -456,6 +457,7 @@ RESET_TIMER:
 		// transmit buffer to become available again.
 		select {
 		case <-s.chWriteEvent:
+			verifYield("write.wake")
 		case <-deadlineChanged:
 			if timeout != nil && !timeout.Stop() {
 				select {
